@@ -6,7 +6,7 @@
   Run: `lake env lean --run drivers/C14.lean`
 -/
 import LccModel.Proto
-import LccModel.Model.Inject
+import LccModel.Model.Callable
 open Lean LccModel LccModel.Proto LccModel.Loops
 
 def getStrs (j : Json) (k : String) : Except String (List String) := do
@@ -21,8 +21,30 @@ def parseScope (s : String) : Except String Fixture.Scope :=
   | "pre_run" => pure .preRun
   | _ => throw s!"unknown scope {s}"
 
+def parseKind (s : String) : Except String Callable.Kind :=
+  match s with
+  | "function" => pure .function
+  | "boundMethod" => pure .boundMethod
+  | "callableObject" => pure .callableObject
+  | "partialObject" => pure .partialObject
+  | _ => throw s!"unknown callable kind {s}"
+
+/-- a callable as it was WRITTEN: {kind, params, wrapped?} -/
+def parseCallable (j : Json) : Except String Callable.Callable := do
+  let w : Option (List String) := match j.getObjVal? "wrapped" with
+    | .ok (Json.arr a) => some (a.toList.filterMap (fun x => x.getStr?.toOption))
+    | _ => none
+  pure ⟨← parseKind (← getStr j "kind"), ← getStrs j "params", w⟩
+
+/-- the names a test / fixture / setup_suite callable needs: READ from the callable by the model (`neededArgs`) when the
+    request describes one (key `ckey`), else given as a list (key `lkey`) -/
+def neededOf (j : Json) (ckey lkey : String) : Except String (List String) :=
+  match j.getObjVal? ckey with
+  | .ok c => do pure (Callable.neededArgs (← parseCallable c))
+  | .error _ => getStrs j lkey
+
 def parseDecl (j : Json) : Except String Fixture.Decl := do
-  pure ⟨← getStrs j "names", ← parseScope (← getStr j "scope"), ← getBool j "per_thread", ← getStrs j "params"⟩
+  pure ⟨← getStrs j "names", ← parseScope (← getStr j "scope"), ← getBool j "per_thread", ← neededOf j "callable" "params"⟩
 
 def parseDep (j : Json) : Except String Deps.Dep :=
   match j.getObjVal? "path" with
@@ -39,7 +61,7 @@ def parseKVs (j : Json) (k : String) : Except String (List (String × String)) :
 
 def parseTest (j : Json) : Except String Prepare.PTest := do
   let deps ← (← getArr j "deps").toList.mapM parseDep
-  pure ⟨← getStr j "path", ← getStrs j "args", ← getStrs j "parameters", ← getBool j "disabled", deps,
+  pure ⟨← getStr j "path", ← neededOf j "callable" "args", ← getStrs j "parameters", ← getBool j "disabled", deps,
         ← parseKVs j "props", ← getStrs j "tags"⟩
 
 def parseShape (s : String) : Except String Inject.Shape :=
@@ -72,7 +94,7 @@ partial def parseSuite (j : Json) : Except String Inject.DSuite := do
   let tests ← (← getArr j "tests").toList.mapM parseTest
   let subs ← (← getArr j "subs").toList.mapM parseSuite
   let attrs ← (← getArr j "attrs").toList.mapM parseAttr
-  pure (.mk (← getStr j "path") (← getBool j "disabled") (dirOrder attrs) (← getStrs j "setup_args")
+  pure (.mk (← getStr j "path") (← getBool j "disabled") (dirOrder attrs) (← neededOf j "setup_callable" "setup_args")
             (← parseKVs j "props") (← getStrs j "tags") tests subs)
 
 def parsePolicy (j : Json) : Except String Policy.Policy := do
@@ -155,10 +177,11 @@ def handle (j : Json) : Except String Json := do
   let sched ← (← getArr j "sched").toList.mapM parseSuite
   let fd ← getBool j "fd"
   let p : Inject.DProject := ⟨policy, decls, all, sched⟩
-  match Inject.prepareD p with
-  | .error (.policy e) => pure (policyErr e)
-  | .error (.deps e) => pure (depsErr e)
-  | .error (.fixture e) => pure (fixtureErr e)
+  match Prepare.prepareFull p with
+  | .error (.declRefused names) => pure (errJson "decl" "per-thread-scope" names)
+  | .error (.validation (.policy e)) => pure (policyErr e)
+  | .error (.validation (.deps e)) => pure (depsErr e)
+  | .error (.validation (.fixture e)) => pure (fixtureErr e)
   | .ok prep =>
     let R := prep.registry
     let S := Prepare.toFixtureSuites (Inject.lowerL sched)
